@@ -32,7 +32,8 @@ fn indexed_words(n: usize) -> Vec<Word> {
 fn build_payload(words: &[Word], fmt0: bool, ff: usize) -> Vec<u8> {
     let mut p = Packet::new(Rdh { format_word: if fmt0 { 0 } else { 2 }, ..Rdh::default() });
     p.words = words.to_vec();
-    p.pad = if fmt0 { 0 } else { ff };
+    // format 0 has no padding of its own; a run of more than 15 bytes of 0xFF after the slots is still over-padding
+    p.pad = if fmt0 && ff <= 15 { 0 } else { ff };
     p.payload()
 }
 
@@ -160,8 +161,9 @@ fn reset_case(t: &mut Tape, w: &Worker) -> CaseResult {
     let ff = 16 + t.below(25);
     let third_cont = t.chance(1, 2);
     let via_cli = t.chance(1, 4);
+    let fmt0 = t.chance(1, 2);
     let mk = |page: u16, words: Vec<Word>, pad: usize| {
-        let mut p = Packet::new(Rdh { fee_id: fee_id(0, 0, 1), pages_counter: page, ..Rdh::default() });
+        let mut p = Packet::new(Rdh { fee_id: fee_id(0, 0, 1), pages_counter: page, format_word: if fmt0 { 0 } else { 2 }, ..Rdh::default() });
         p.words = words;
         p.pad = pad;
         p.fix_sizes();
@@ -172,7 +174,7 @@ fn reset_case(t: &mut Tape, w: &Worker) -> CaseResult {
     let t0 = TdhF { trigger_type: tt, internal: true, no_data: false, continuation: false, bc: r0.bc(), orbit: r0.orbit };
     let nine = [0xA0u8, 1, 0xB0, 0, 0, 0, 0, 0, 0];
     // 1: ends with TDT packet_done = 0  ->  continuation expected next
-    let p1 = mk(0, vec![ihw(7), tdh(&t0), data_word(0x20, &nine), tdt(0, 0, false, false, false)], 3);
+    let p1 = mk(0, vec![ihw(7), tdh(&t0), data_word(0x20, &nine), tdt(0, 0, false, false, false)], if fmt0 { 0 } else { 3 });
     // 2: over-padded (content would be a legal continuation page)
     let tc = TdhF { continuation: true, ..t0 };
     let p2 = mk(1, vec![ihw(7), tdh(&tc), data_word(0x20, &nine), tdt(0, 0, true, false, false)], ff);
@@ -218,9 +220,9 @@ fn reset_case(t: &mut Tape, w: &Worker) -> CaseResult {
     }
     let mut out = CaseOut::default();
     out.nontrivial = true;
-    out.fingerprint = (ff as u64) << 8 | (third_cont as u64) << 1 | via_cli as u64;
+    out.fingerprint = (ff as u64) << 8 | (fmt0 as u64) << 2 | (third_cont as u64) << 1 | via_cli as u64;
     out.execs = via_cli as u64;
-    out.labels.push(format!("reset:{}", if via_cli { "cli" } else { "inproc" }));
+    out.labels.push(format!("reset:{}:{}", if via_cli { "cli" } else { "inproc" }, if fmt0 { "format0" } else { "format2" }));
     if w.take_sample() {
         out.sample = Some(detail);
     }
